@@ -47,6 +47,9 @@ SCALARS = {
     "union-models": {"oneOf": [{"$ref": "#/components/schemas/Leaf"}, {"$ref": "#/components/schemas/Leaf2"}]},
     "union-date-int": {"oneOf": [{"type": "string", "format": "date"}, {"type": "integer"}]},
     "typelist": {"type": ["string", "integer", "null"]},
+    "union-consts": {"oneOf": [{"const": "asc"}, {"const": "desc"}, {"const": "natural"}]},
+    "union-int-const": {"anyOf": [{"type": "integer"}, {"const": "x"}]},
+    "union-const-model": {"oneOf": [{"const": "none"}, {"$ref": "#/components/schemas/Leaf"}]},
 }
 DEFAULTS = {"str": "dflt", "int": 7, "num": 1.5, "bool": True, "strenum": "a", "const": "fixed", "date": "2020-01-02"}
 
